@@ -187,7 +187,7 @@ class Driver:
         self.trace.append([rule, args])
         self.rules += 1
         try:
-            with core.time_limit(90):
+            with core.time_limit(180):
                 getattr(self, "r_" + rule)(**args)
                 self.check_invariants(rule)
         except core.CaseTimeout:
